@@ -8,7 +8,7 @@ from sa.cfg import CFG
 from sa.classes import (init_fields, init_param_of_field, prop_field_map, method_fields, written_keys, read_keys,
                         inner_records, self_name, fields_of)
 from sa.report import AnalysisError
-from sa.srcmodel import unparse, walk_no_nested, calls_in, owner_class
+from sa.srcmodel import unparse, walk_no_nested, calls_in, owner_class, dotted
 
 SCOPE_PREFIXES = ('pharmpy.model.', 'pharmpy.basic.', 'pharmpy.workflows.hashing', 'pharmpy.internals.df',
                   'pharmpy.internals.immutable', 'pharmpy.workflows.log', 'pharmpy.workflows.model_entry')
@@ -245,8 +245,58 @@ def run(chk, repo, tier):
                                   'an ordered value is built from a set without sorting', line=c.lineno,
                                   witness='with two or more string elements the order depends on PYTHONHASHSEED: '
                                           'to_dict(), generic model code and ModelHash differ between processes')
+        if f.name in ('to_dict', 'serialize', '__hash__') or 'hash' in f.name.lower():
+            from sa.setorder import SetOrder
+            try:
+                so = SetOrder(f.node, set_funcs={'_comps'})
+            except Exception as e:      # CFG construction problems are analysis errors, not passes
+                raise AnalysisError(f'H4: set-order analysis failed on {f.qualname}: {e}')
+            for node, expr, why, txt in so.leaks:
+                chk.violation(H4, f.module.rel, f.qualname, txt[:100],
+                              f'{why}: the serialised form depends on the iteration order of a set', line=getattr(expr, 'lineno', None),
+                              witness='a model with two or more compartments serialised in two interpreter processes '
+                                      '(different PYTHONHASHSEED): the dictionaries, the generic code and the ModelHash differ')
         chk.instance(H4, None)
     chk.extra['H4_functions_in_scope'] = n_scope
+
+    # ---------------------------------------------------------------- H6 DataFrame fields keep their index
+    H6 = chk.rule('H6', 'a DataFrame field is serialised with an orientation that keeps its index, and read back with the '
+                        'matching one', floor=1)
+    PAIRS = {(None, None), ('dict', None), (None, 'columns'), ('dict', 'columns'), ('index', 'index'), ('tight', 'tight')}
+    n6 = 0
+    for c_ in repo.all_classes():
+        if not in_scope(c_.module.name):
+            continue
+        td, fd = c_.methods.get('to_dict'), c_.methods.get('from_dict')
+        if td is None or fd is None:
+            continue
+        writes = [c for c in calls_in(td.node) if isinstance(c.func, ast.Attribute) and c.func.attr == 'to_dict'
+                  and not c.args and (not c.keywords or any(k.arg == 'orient' for k in c.keywords))
+                  and isinstance(c.func.value, ast.Attribute) and unparse(c.func.value).startswith('self.')]
+        reads = [c for c in calls_in(fd.node) if (dotted(c.func) or '').endswith(('DataFrame.from_dict', 'pd.DataFrame'))]
+        # only receivers that are DataFrame-typed fields: annotated so in __init__ / create
+        for w in writes:
+            fld = unparse(w.func.value)
+            ann = ' '.join(unparse(a.annotation) for m_ in (c_.methods.get('__init__'), c_.methods.get('create')) if m_
+                           for a in m_.node.args.args + m_.node.args.kwonlyargs
+                           if a.annotation is not None and a.arg == fld.split('.')[-1].lstrip('_'))
+            if 'DataFrame' not in ann:
+                continue
+            n6 += 1
+            wo = next((k.value.value for k in w.keywords if k.arg == 'orient' and isinstance(k.value, ast.Constant)), None)
+            ros = [next((k.value.value for k in r.keywords if k.arg == 'orient' and isinstance(k.value, ast.Constant)), None)
+                   for r in reads]
+            ok = bool(ros) and all((wo, ro) in PAIRS for ro in ros)
+            chk.instance(H6, f'{c_.name}: {unparse(w)} read back with orient {ros}: index preserving pair {ok}')
+            if not ok:
+                chk.violation(H6, c_.module.rel, td.qualname, unparse(w),
+                              f'orientation {wo!r} (read back with {ros}) does not carry the row index of the frame',
+                              line=w.lineno,
+                              witness='a model whose initial individual estimates are indexed by subject id (11..15): '
+                                      'from_dict(to_dict(m)) has index 0..4, is != m, and two models giving the same numbers '
+                                      'to different subjects share one hash')
+    if n6 == 0:
+        raise AnalysisError('H6: no DataFrame field serialisation found (Model.initial_individual_estimates moved?)')
 
     # ---------------------------------------------------------------- H5
     mh = repo.cls('pharmpy.workflows.hashing.ModelHash').methods.get('__init__')
